@@ -196,9 +196,13 @@ class SyncedList(SyncedCollection, MutableSequence):
         """
         data = _convert_numpy(data)
         if _sequence_resolver.get_type(data) == "SEQUENCE":
-            self._update(data)
-            with self._thread_lock:
-                self._save()
+            if self._root is None:
+                with self._thread_lock:
+                    self._update(data)
+                    self._save()
+            else:
+                with self._load_and_save:
+                    self._update(data)
         else:
             raise ValueError(
                 "Unsupported type: {}. The data must be a non-string sequence or None.".format(
@@ -249,9 +253,15 @@ class SyncedList(SyncedCollection, MutableSequence):
             self._data.remove(self._from_base(data=value, parent=self))
 
     def clear(self):  # noqa: D102
-        self._data.clear()
-        with self._thread_lock:
-            self._save()
+        if self._root is None:
+            # The root does not load first: clearing is also the way to recover
+            # from an unreadable resource. The change is made under the lock.
+            with self._thread_lock:
+                self._data.clear()
+                self._save()
+        else:
+            with self._load_and_save:
+                self._data.clear()
 
     def __lt__(self, other):
         if isinstance(other, type(self)):
